@@ -100,6 +100,17 @@ CHECKS.update({
             "layouts beyond the bound are not covered.", "3/C14"),
 })
 
+CHECKS.update({
+    "C15": (EX, "exhaustive bounded enumeration of multi-round assignment histories vs an independent statement of what may move",
+            "Every first-round input of C14's bounded space is followed by a second round that is identical, minus every "
+            "non-empty proper subset of members, or plus 1-2 new members (at every sort position), with previous assignments "
+            "carried through the real metadata()/on_assignment() user-data encoding of per-member assignor subclasses; a third "
+            "round is chained on the 1-member slice. Oracle: identical input => identical result; identical subscriptions => no "
+            "partition moves between surviving / between old members.",
+            "Trusted: the independent movement oracle; PYTHONHASHSEED=0 fixes set iteration order. Chains of 5 random rounds are "
+            "not covered.", "3/C15"),
+})
+
 NOT_APPLICABLE = {}
 
 
